@@ -52,8 +52,13 @@ HEnumR  == Enum("u8", <<Var(0, <<U8>>), Var(0, <<U8>>), Var(1, <<U8>>)>>)       
 
 \* method: [name, from, to, args, ret, refs (argument indices passed by reference)]
 \*         chg: version from which argument 1 has the incompatible type chgty (0 = never)
+\*         kind: "plain", or a method through which the payload type travels INSIDE a nested exported interface:
+\*               "sink"  fn m(&self, s: &mut dyn Sink, x: T) -> T   with  trait Sink { fn put(&mut self, r: T) -> T }
+\*               "fn"    fn m(&self, f: &dyn Fn(T) -> T, x: T) -> T
+\*               the implementation hands x to the caller's object / closure and returns what comes back
 M(name, from, to, args, ret, refs) == [name |-> name, from |-> from, to |-> to, args |-> args, ret |-> ret, refs |-> refs,
-                                       chg |-> 0, chgty |-> U8]
+                                       chg |-> 0, chgty |-> U8, kind |-> "plain"]
+MN(name, kind, ty) == [M(name, 0, INF, <<ty>>, ty, {}) EXCEPT !.kind = kind]
 FamilyA == << M("add", 0, INF, <<U32, U32>>, U32, {}),
               M("echo", 0, INF, <<HAdd>>, HAdd, {}),
               M("mid", 0, INF, <<HAddMid>>, HAddMid, {}),
@@ -67,7 +72,8 @@ FamilyA == << M("add", 0, INF, <<U32, U32>>, U32, {}),
               M("enref", 0, INF, <<HEnumR>>, U8, {1}),
               M("rem2", 0, INF, <<HRem2>>, HRem2, {}),
               M("padref", 0, INF, <<HPad>>, U16, {1}),
-              M("remref", 0, INF, <<HRemR>>, U32, {1}) >>
+              M("remref", 0, INF, <<HRemR>>, U32, {1}),
+              MN("sink", "sink", HAdd), MN("sinkmid", "sink", HAddMid), MN("viafn", "fn", HAdd), MN("viafnrem", "fn", HRem) >>
 FamilyB == << M("add", 0, INF, <<U32, U32>>, U32, {}),
               [M("changed", 0, INF, <<U32>>, U8, {}) EXCEPT !.chg = 2, !.chgty = Str],
               [M("count", 0, INF, <<U8>>, U8, {}) EXCEPT !.chg = 1, !.chgty = Tup(<<U8, U8>>)] >>
@@ -133,25 +139,26 @@ Reinterpret(t, vi, vj, v) ==
          THEN v.vs[PosIn(ki, mi[PosIn(mj, kj[q])])]
          ELSE Unit])
 
-VARIABLES fam, i, j, pc, eff, connected, mname, args, seen, ret, got, outcome
-vars == <<fam, i, j, pc, eff, connected, mname, args, seen, ret, got, outcome>>
+VARIABLES fam, i, j, pc, eff, connected, mname, args, seen, ret, got, outcome,
+          nseen     \* what the caller's nested object / closure observed (methods of kind "sink" / "fn")
+vars == <<fam, i, j, pc, eff, connected, mname, args, seen, ret, got, outcome, nseen>>
 
 Init ==
     /\ fam \in 1..Len(Families) /\ i \in 0..NV /\ j \in 0..NV
     /\ pc = "start" /\ eff = -1 /\ connected = "unknown" /\ mname = "" /\ args = <<>> /\ seen = <<>>
-    /\ ret = Unit /\ got = Unit /\ outcome = "none"
+    /\ ret = Unit /\ got = Unit /\ outcome = "none" /\ nseen = Unit
 
 InterrogateVersion ==
     /\ pc = "start" /\ pc' = "versions" /\ eff' = (IF i < j THEN i ELSE j)
-    /\ UNCHANGED <<fam, i, j, connected, mname, args, seen, ret, got, outcome>>
+    /\ UNCHANGED <<fam, i, j, connected, mname, args, seen, ret, got, outcome, nseen>>
 InterrogateMethods ==
     /\ pc = "versions" /\ pc' = "defs"
-    /\ UNCHANGED <<fam, i, j, eff, connected, mname, args, seen, ret, got, outcome>>
+    /\ UNCHANGED <<fam, i, j, eff, connected, mname, args, seen, ret, got, outcome, nseen>>
 Analyze ==
     /\ pc = "defs"
     /\ connected' = (IF ConnectOk(fam, i, j) THEN "ok" ELSE "err")
     /\ pc' = (IF ConnectOk(fam, i, j) THEN "ready" ELSE "done")
-    /\ UNCHANGED <<fam, i, j, eff, mname, args, seen, ret, got, outcome>>
+    /\ UNCHANGED <<fam, i, j, eff, mname, args, seen, ret, got, outcome, nseen>>
 
 \* values the caller can pass: every enum in them must exist at the effective version (documented panic otherwise)
 ValSetOf(t) == LET vals == Vals(t) IN {vals[n] : n \in 1..(IF Len(vals) > 3 THEN 3 ELSE Len(vals))}
@@ -166,7 +173,7 @@ CallBegin ==
               args' = [k \in 1..Len(m.args) |->
                          LET ch == SetToSeq(Passable(ArgAt(m, k, i), eff)) IN ch[((pick + k - 2) % Len(ch)) + 1]]
     /\ pc' = "called"
-    /\ UNCHANGED <<fam, i, j, eff, connected, seen, ret, got, outcome>>
+    /\ UNCHANGED <<fam, i, j, eff, connected, seen, ret, got, outcome, nseen>>
 
 Callee == Find(MethodsAt(fam, j), mname)
 Caller == Find(MethodsAt(fam, i), mname)[1]
@@ -174,7 +181,7 @@ Caller == Find(MethodsAt(fam, i), mname)[1]
 Missing ==
     /\ pc = "called" /\ Callee = <<>>
     /\ outcome' = "panic-missing-method" /\ pc' = "done"
-    /\ UNCHANGED <<fam, i, j, eff, connected, mname, args, seen, ret, got>>
+    /\ UNCHANGED <<fam, i, j, eff, connected, mname, args, seen, ret, got, nseen>>
 \* SerArgs . Entry . DeserArgs : bytes at the effective version, caller's definition -> implementation's definition
 Transfer ==
     /\ pc = "called" /\ Callee # <<>>
@@ -183,11 +190,22 @@ Transfer ==
                   THEN Reinterpret(Caller.args[k], i, j, args[k])           \* raw pointer: the caller's memory read as the callee's type
                   ELSE Dec(ArgAt(Callee[1], k, j), Enc(ArgAt(Caller, k, i), args[k], eff), 0, eff).v]
     /\ pc' = "invoking"
-    /\ UNCHANGED <<fam, i, j, eff, connected, mname, args, ret, got, outcome>>
+    /\ UNCHANGED <<fam, i, j, eff, connected, mname, args, ret, got, outcome, nseen>>
 \* the implementation returns one of its values (which must be expressible at the effective version)
 Invoke ==
-    /\ pc = "invoking"
+    /\ pc = "invoking" /\ Caller.kind = "plain"
     /\ \E r \in Passable(RetAt(Callee[1], j), eff) : ret' = r
+    /\ pc' = "returning"
+    /\ UNCHANGED <<fam, i, j, eff, connected, mname, args, seen, got, outcome, nseen>>
+\* the implementation calls back into the caller's object / closure with what it received, and returns what comes back:
+\* two more transfers at the effective version, in the opposite and then again in the forward direction
+InvokeNested ==
+    /\ pc = "invoking" /\ Caller.kind # "plain"
+    /\ LET tc == ArgAt(Caller, 1, i)  ti == ArgAt(Callee[1], 1, j)
+           toCaller == Dec(tc, Enc(ti, seen[1], eff), 0, eff).v
+           back == Dec(ti, Enc(tc, toCaller, eff), 0, eff).v IN
+       /\ nseen' = toCaller
+       /\ ret' = back
     /\ pc' = "returning"
     /\ UNCHANGED <<fam, i, j, eff, connected, mname, args, seen, got, outcome>>
 \* SerRet . Receive
@@ -195,8 +213,8 @@ Return ==
     /\ pc = "returning"
     /\ got' = Dec(RetAt(Caller, i), Enc(RetAt(Callee[1], j), ret, eff), 0, eff).v
     /\ outcome' = "returned" /\ pc' = "done"
-    /\ UNCHANGED <<fam, i, j, eff, connected, mname, args, seen, ret>>
-Next == InterrogateVersion \/ InterrogateMethods \/ Analyze \/ CallBegin \/ Missing \/ Transfer \/ Invoke \/ Return
+    /\ UNCHANGED <<fam, i, j, eff, connected, mname, args, seen, ret, nseen>>
+Next == InterrogateVersion \/ InterrogateMethods \/ Analyze \/ CallBegin \/ Missing \/ Transfer \/ Invoke \/ InvokeNested \/ Return
 Spec == Init /\ [][Next]_vars
 
 (* ------------------------------------------------------------------ *)
@@ -218,11 +236,18 @@ IncompatibleRejected ==
     (fam = 2 /\ connected # "unknown") =>
         (connected = "err" <=> \E n \in 1..Len(Families[2]) :
                                    LET m == Families[2][n] IN m.chg > 0 /\ ((i >= m.chg) # (j >= m.chg)))
+\* nested interfaces and closures: every hop is a transfer at the effective version (Move), so that equal versions give identity
+Move(D, a, b, v) == LET e == IF a < b THEN a ELSE b IN Load(D, e, b, Down(D, a, e, v))
+NestedTransparent ==
+    (outcome = "returned" /\ Caller.kind # "plain") =>
+        /\ nseen = Move(Caller.args[1], j, i, seen[1])
+        /\ ret = Move(Caller.args[1], i, j, nseen)
+        /\ (i = j => nseen = args[1] /\ got = args[1])
 MissingPanicsAtCall == outcome = "panic-missing-method" => connected = "ok" /\ Callee = <<>>
 \* the by-reference path is exercised: some connection passes a struct by pointer, some must serialize it
 ByRefTaken == ~(pc = "invoking" /\ \E k \in 1..Len(args) : ByRefOk(Caller, k, i, j) /\ i # j)      \* (expected to be VIOLATED: witness)
 
-Sig(m, v) == [name |-> m.name, args |-> ArgsAt(m, v), ret |-> RetAt(m, v), refs |-> SetToSeq(m.refs)]
+Sig(m, v) == [name |-> m.name, args |-> ArgsAt(m, v), ret |-> RetAt(m, v), refs |-> SetToSeq(m.refs), kind |-> m.kind]
 Export ==
     /\ (pc = "start" /\ i = 0 /\ j = 0) =>
           PrintT(ToJson([kind |-> "family", fam |-> fam,
@@ -231,5 +256,6 @@ Export ==
                                    Append(ArgsAt(MethodsAt(fam, v - 1)[n], v - 1), RetAt(MethodsAt(fam, v - 1)[n], v - 1))])])]))
     /\ (pc = "done") =>
           PrintT(ToJson([kind |-> "call", fam |-> fam, i |-> i, j |-> j, eff |-> eff, connected |-> connected, method |-> mname,
-                         args |-> args, seen |-> seen, ret |-> ret, got |-> got, outcome |-> outcome]))
+                         args |-> args, seen |-> seen, ret |-> ret, got |-> got, outcome |-> outcome,
+                         mkind |-> IF mname = "" THEN "plain" ELSE Caller.kind, nseen |-> nseen]))
 =============================================================================
